@@ -3,7 +3,7 @@
    Tables.v on this run, with grace period g (the source's value is grace_ns). *)
 From Coq Require Import List NArith ZArith Bool.
 From FwdLib Require Import Bytes.
-From G03 Require Import Tables Tunnel TunnelProofs Abstract ReplyReader Deadlines Check OracleProofs Obligations.
+From G03 Require Import Tables Tunnel TunnelProofs Abstract Weak ReplyReader Deadlines Check OracleProofs Obligations.
 Import ListNotations.
 Open Scope N_scope.
 
@@ -142,11 +142,14 @@ Theorem T03_oracle_sound : forall o, obs_prop o = true -> obs_property o.
 Proof. exact obs_prop_sound. Qed.
 Print Assumptions T03_oracle_sound.
 
-(* A case passing the correspondence check has a recorded trace that is a run of the LTS
-   from the observed switch-over state. *)
+(* A case passing the correspondence check has a recorded trace that is a run of the LTS from the
+   observed switch-over state; when the dialled connection carries TLS (HTTPS upstream proxy, Upgrade
+   to a TLS target) the proxy's operations on it are hidden and the recorded trace is the observable
+   projection of a run (weak trace inclusion). *)
 Theorem T03_correspondence_is_trace_inclusion : forall c, cmodel_ok c = true ->
-  exists tr s, cc_trace c = Some tr /\
-               steps (tables_shape (cc_grace c)) (cinit c) tr s.
+  exists tr full s, cc_trace c = Some tr /\
+               steps (tables_shape (cc_grace c)) (cinit c) full s /\
+               (if cc_weak c then filter observable full = tr else full = tr).
 Proof. exact cmodel_ok_run. Qed.
 Print Assumptions T03_correspondence_is_trace_inclusion.
 
